@@ -67,6 +67,50 @@ M = [
  ('C20-any-orthonormal-pair', 'src/f32/vec3.rs', r'1076s/sign + self.y \* self.y \* a/sign + self.y * self.x * a/', ['C12', 'C20']),
  ('C21-mat3-from-translation-bottom', 'src/f32/mat3.rs', r'326s/translation.y, 1.0/translation.y, 0.0/', ['C10', 'C11', 'C20']),
  ('C24-bvec3a-display-u32', 'src/bool/sse2/bvec3a.rs', r'233s/into_bool_array/into_u32_array/', ['C15']),
+ # --- round 2, agent B (C08-C14)
+ ('R2B-E1-to-euler-guard-reversed', 'src/euler.rs', r's/if (cy > 16.0/if (cy < 16.0/', ['C09']),
+ ('R2B-a-to-axis-angle-guard-reversed', 'src/f64/dquat.rs', r'448s/if length >= EPSILON {/if length < EPSILON {/', ['C09']),
+ ('R2B-f-from-scaled-axis-guard-reversed', 'src/f64/dquat.rs', r'143s/if length == 0.0 {/if length != 0.0 {/', ['C09']),
+ ('R2B-b-slerp-threshold-reversed', 'src/f64/dquat.rs', r'719s/if dot > DOT_THRESHOLD {/if dot < DOT_THRESHOLD {/', ['C12']),
+ ('R2B-c-arc-guard-reversed', 'src/f64/dquat.rs', r'303s/if dot > ONE_MINUS_EPS {/if dot < ONE_MINUS_EPS {/', ['C12']),
+ ('R2B-A6-vec-slerp-fallback-sign', 'src/f64/dvec3.rs', r'1108s/if dot < 0.0 {/if dot > 0.0 {/', ['C12']),
+ ('R2B-d-vec-slerp-lerp-swapped', 'src/f64/dvec3.rs', r'1119s/self.lerp(rhs, s)/rhs.lerp(self, s)/', ['C12']),
+ ('R2B-M1-quat-slerp-lerp-swapped', 'src/f64/dquat.rs', r'721s/self.lerp_impl(end, s)/end.lerp_impl(self, s)/', ['C12']),
+ ('R2B-e-vec-slerp-half-angle', 'src/f64/dvec3.rs', r'1113s/core::f64::consts::PI \* s/core::f64::consts::FRAC_PI_2 * s/', ['C12']),
+ ('R2B-M7-arc-halfturn-axis', 'src/f64/dquat.rs', r'309s/from.any_orthonormal_vector()/from/', ['C12']),
+ ('R2B-M6-rotate-towards-fallback-axis', 'src/f64/dvec3.rs', r'1021s/.unwrap_or_else(|| self.any_orthogonal_vector().normalize());/.unwrap_or(Self::X);/', ['C12']),
+ ('R2B-g-quat-angle-between', 'src/f64/dquat.rs', r'622s/ \* 2.0$//', ['C04', 'C12']),
+ ('R2B-M8-dvec2-rotate-towards-pi32', 'src/f64/dvec2.rs', r'1003s/core::f64::consts::PI/(core::f32::consts::PI as f64)/', ['C12']),
+ ('R2B-T2-arc-threshold-1000eps', 'src/f64/dquat.rs', r'301s/1.0 - 2.0 \* f64::EPSILON/1.0 - 1000.0 * f64::EPSILON/', ['C12']),
+ ('R2B-w-orthonormal-pair-sign', 'src/f64/dvec3.rs', r'1071s/let sign = math::signum(self.z);/let sign = 1.0;/', ['C12']),
+ ('R2B-i-dquat-xyz', 'src/f64/dquat.rs', r'483s/DVec3::new(self.x, self.y, self.z)/DVec3::new(self.x, self.z, self.y)/', ['C14', 'C17', 'C04']),
+ # --- round 2, agent C (C15-C20)
+ ('R2C-M1-vec4-aligned-store-to-slice', 'src/f32/sse2/vec4.rs', r'174s/_mm_storeu_ps/_mm_store_ps/', ['C18']),
+ ('R2C-M2-coresimd-quat-assert-removed', 'src/f32/coresimd/quat.rs', r'126d', ['C20']),
+ ('R2C-M3-dquat-angle-between-assert-or', 'src/f64/dquat.rs', r'621s/&&/||/', ['C20']),
+ ('R2C-M31-dquat-lerp-debug-assert', 'src/f64/dquat.rs', r'683s/glam_assert!/debug_assert!/', ['C18', 'C20']),
+ ('R2C-M6-bvec3-true-const', 'src/bool/bvec3.rs', r's/pub const TRUE: Self = Self::splat(true);/pub const TRUE: Self = Self::splat(false);/', ['C15', 'C17']),
+ ('R2C-M8-swizzle-default-xy', 'src/swizzles/vec_traits.rs', r'11s/self/self.yx()/', ['C16']),
+ ('R2C-M10-anybitpattern-bvec4a', 'src/features/impl_bytemuck.rs', r'10s/^/unsafe impl AnyBitPattern for crate::BVec4A {}\nunsafe impl Zeroable for crate::BVec4A {}\n/', ['C19', 'C15']),
+ ('R2C-M11-serde-bvec4a-u32', 'src/features/impl_serde.rs', r'967s/\[bool; 4\]/[u32; 4]/', ['C19']),
+ ('R2C-M14-bvec4a-pub-field', 'src/bool/sse2/bvec4a.rs', r's/pub struct BVec4A(pub(crate) __m128);/pub struct BVec4A(pub __m128);/', ['C15']),
+ ('R2C-M51-vec3a-clamp-length-max-strict', 'src/f32/sse2/vec3a.rs', r'919s/0.0 <= max/0.0 < max/', ['C20']),
+ ('R2C-M5-debug-glam-assert-feature-name', 'src/macros.rs', r's/feature = "debug-glam-assert"/feature = "debug_glam_assert"/', ['C20', 'C07']),
+ ('R2C-M7-bvec3-display-literal', 'src/bool/bvec3.rs', r's/write!(f, "\[{}, {}, {}\]", arr\[0\], arr\[1\], arr\[2\])/write!(f, "({}, {}, {})", arr[0], arr[1], arr[2])/', ['C15']),
+ ('R2C-M16-dquat-extra-assert', 'src/f64/dquat.rs', r'130s/$/\n        glam_assert!(angle <= core::f64::consts::PI \&\& angle >= -core::f64::consts::PI);/', ['C20']),
+ ('R2C-M4-dmat4-perspective-assert-or', 'src/f64/dmat4.rs', r'803s/&&/||/', ['C20']),
+ ('R2C-M12-rkyv-bvec3', 'src/features/impl_rkyv.rs', r's/^    impl_rkyv!(Vec4);/    impl_rkyv!(Vec4);\n    impl_rkyv!(crate::BVec3);/', ['C19']),
+ ('R2C-M91-from-slice-doc-removed', 'src/f32/vec3.rs', r'138,140d', ['C18']),
+ # --- round 2, agent A (C01-C07)
+ ('R2A-A-f32-mul-mat4', 'src/f32/sse2/mat4.rs', r'1436s/rhs.mul_scalar(self)/rhs.div_scalar(self)/', ['C03', 'C07']),
+ ('R2A-B-mat3-transform-point2', 'src/f32/mat3.rs', r'524s/rhs + self.z_axis.xy()/rhs + self.y_axis.xy()/', ['C11', 'C06']),
+ ('R2A-C-dmat3-free-ctor', 'src/f64/dmat3.rs', r'17s/DMat3::from_cols(x_axis, y_axis, z_axis)/DMat3::from_cols(x_axis, z_axis, y_axis)/', ['C06', 'C17']),
+ ('R2A-D-daffine3-identity', 'src/f64/daffine3.rs', r'28s/matrix3: DMat3::IDENTITY,/matrix3: DMat3::ZERO,/', ['C05', 'C06']),
+ ('R2A-E-vec4-map', 'src/f32/sse2/vec4.rs', r'120s/f(self.z), f(self.w))/f(self.z), f(self.z))/', ['C17', 'C01']),
+ ('R2A-G-dmat3-neg-sign', 'src/f64/dmat3.rs', r's/        Self::from_cols(self.x_axis.neg(), self.y_axis.neg(), self.z_axis.neg())/        Self::ZERO.sub_mat3(\&self)/', ['C03']),
+ ('R2A-N1-daffine3-product-order', 'src/f64/daffine3.rs', r's/        iter.fold(Self::IDENTITY, |a, &b| a \* b)/        iter.fold(Self::IDENTITY, |a, \&b| b * a)/', ['C05', 'C06']),
+ ('R2A-N8-dvec3-distance-expanded', 'src/f64/dvec3.rs', r's/        (self - rhs).length()$/        math::sqrt(self.length_squared() + rhs.length_squared() - 2.0 * self.dot(rhs))/', ['C02']),
+ ('R2A-S1-dvec2-distance-squared-expanded', 'src/f64/dvec2.rs', r'485s/(self - rhs).length_squared()/self.length_squared() + rhs.length_squared() - 2.0 * self.dot(rhs)/', ['C02']),
 ]
 
 
